@@ -36,7 +36,10 @@ def _run_reader_writer(model, ch, attributes):
         seen["writer"] = (args, dict(kwargs))
         return Obj("csv.writer", {"writerow": stub(lambda i, a, k: None)})
 
-    interp = Interp(model, ch, externals={"csv.reader": csv_reader, "csv.writer": csv_writer})
+    def string_io(interp, args, kwargs):
+        return Obj("io.StringIO", {"is_row_buffer": True}, label="row buffer")
+
+    interp = Interp(model, ch, externals={"csv.reader": csv_reader, "csv.writer": csv_writer, "io.StringIO": string_io})
     world = World(model, interp, ch)
     data_format = world.data_format("delimited", **attributes)
     stream = world.stream()
@@ -68,8 +71,9 @@ def rule_dialect(ctx):
         problems = []
         if "reader" not in seen or "writer" not in seen:
             return (key, "csv.reader / csv.writer not both constructed", "conforms")
-        if seen["reader"][0][0] is not stream or seen["writer"][0][0] is not stream:
-            problems.append("reader/writer not attached to the given stream")
+        writer_target = seen["writer"][0][0]
+        if seen["reader"][0][0] is not stream or not (writer_target is stream or (isinstance(writer_target, Obj) and writer_target.attrs.get("is_row_buffer"))):
+            problems.append("reader/writer not attached to the given stream (or a row buffer)")
         reader_keywords = dict(seen["reader"][1])
         writer_keywords = dict(seen["writer"][1])
         terminator = writer_keywords.pop("lineterminator", None)
@@ -86,8 +90,12 @@ def rule_dialect(ctx):
         }
         if reader_keywords != expected:
             problems.append("dialect is %r, expected %r" % (reader_keywords, expected))
-        if attributes["_line_delimiter"] != "any" and terminator != attributes["_line_delimiter"]:
-            problems.append("writer line terminator %r for declared %r" % (terminator, attributes["_line_delimiter"]))
+        effective_terminator = "\r\n" if terminator is None else terminator
+        if not ("\r" in effective_terminator and "\n" in effective_terminator):
+            # QUOTE_MINIMAL quotes an item only if it contains the delimiter, the quote character or a character of the
+            # csv writer's line terminator: with a terminator of just LF an item containing CR is written unquoted and the
+            # reader ends the row at it (the declared line delimiter is applied when the formatted row is written - C14)
+            problems.append("csv writer terminator %r: items containing the other line break character are not quoted" % (effective_terminator,))
         return (key, "; ".join(problems) if problems else "conforms", "conforms")
 
     decide(ctx, "O12.1", "delimited reader/writer dialect agreement", "cutplace.rowio._as_delimited_keywords", cell, min_cells=90)
